@@ -479,8 +479,16 @@ func (w *cnWorld) terminate() {
 		}
 		e.Fault("peer-eof")
 	case "rst":
-		w.sc.EndRead(errSimReset, true)
-		e.Fault("rst")
+		if t.Chance(1, 3) {
+			// a read error that calls itself temporary: a connection whose read failed has
+			// ended all the same (the reader does not go on after an error)
+			w.sc.EndRead(&simNetErr{"sim: read: interrupted", true}, true)
+			e.Fault("temporary-read-error")
+			e.Probe("temporary-read-error")
+		} else {
+			w.sc.EndRead(errSimReset, true)
+			e.Fault("rst")
+		}
 		e.Act("terminate", "rst")
 	case "undecodable":
 		// the stream carries the undecodable item: make sure it arrives, then the peer hangs up
